@@ -33,6 +33,7 @@ type Options struct {
 	SelfTest bool
 	NoReplay bool
 	MaxPaths int
+	Summary  bool
 	Seed     int64
 }
 
@@ -52,6 +53,7 @@ type Spec struct {
 	MaxSteps         int
 	Note             string // what the harness encodes (goes to evidence)
 	QuickOnly        bool
+	Asserts          []string // assertion-id prefixes that belong to this property (nil = all)
 	ThoroughOnly     bool
 }
 
@@ -83,27 +85,27 @@ type finding struct {
 
 // harnessStats aggregates one harness run.
 type harnessStats struct {
-	Spec         *Spec
-	Paths        int64
-	Steps        int64
-	Units        int
-	Ends         map[string]int64
-	Unsupported  map[string]int64
-	Inconclusive []string
-	Covers       map[string]bool
-	Findings     map[string]*finding
-	AssertsSeen  int64
-	AssertQ      int64
-	FeasQ        int64
-	ModelHits    int64
-	Solver       solver.Stats
-	Funcs        map[string]bool
-	Samples      []sample
-	Validate     []*validCase
-	Validated    int
+	Spec          *Spec
+	Paths         int64
+	Steps         int64
+	Units         int
+	Ends          map[string]int64
+	Unsupported   map[string]int64
+	Inconclusive  []string
+	Covers        map[string]bool
+	Findings      map[string]*finding
+	AssertsSeen   int64
+	AssertQ       int64
+	FeasQ         int64
+	ModelHits     int64
+	Solver        solver.Stats
+	Funcs         map[string]bool
+	Samples       []sample
+	Validate      []*validCase
+	Validated     int
 	ValidMismatch []string
-	Wall         time.Duration
-	Params       map[string]int
+	Wall          time.Duration
+	Params        map[string]int
 }
 
 type sample struct {
@@ -264,6 +266,10 @@ func runProperty(o *Options, specs []*Spec) (int, error) {
 			continue
 		}
 		violations++
+		if o.Summary {
+			lines = append(lines, fmt.Sprintf("V %s  %s", f.Sig, witnessString(f.Fail)))
+			continue
+		}
 		lines = append(lines, fmt.Sprintf("VIOLATION property=%s replay=%s", o.Property, f.File))
 		lines = append(lines, fmt.Sprintf("  signature: %s  witness: %s  detail: %s", f.Sig, witnessString(f.Fail), f.Fail.Detail))
 	}
@@ -555,6 +561,20 @@ func choiceStr(cs []exec.ChoiceRec) string {
 
 func configure(ex *exec.Exec, s *Spec, params map[string]int) {
 	ex.Params = params
+	if len(s.Asserts) > 0 {
+		pre := s.Asserts
+		ex.AssertFilter = func(id string) bool {
+			if id == "uncaught-panic" {
+				return true
+			}
+			for _, p := range pre {
+				if strings.HasPrefix(id, p) {
+					return true
+				}
+			}
+			return false
+		}
+	}
 	ex.PoolFork = s.PoolFork
 	if s.MaxSteps > 0 {
 		ex.MaxSteps = s.MaxSteps
